@@ -96,6 +96,8 @@ Clauses(t, k) ==
   THEN (IF Query(pre, e) = e.ret THEN {} ELSE {"query:" \o e.q})
        \cup (IF Load(e.post) = pre THEN {} ELSE {"query-mutates"})
   ELSE IF e.op = "resync" THEN {}            \* the harness edited through the public API; nothing judged
+  ELSE IF ~(NoSharing(pre.kids) /\ Acyclic(pre.kids)) THEN {}     \* the caller already broke the usage constraint (a node in two
+                                                                 \* child lists): outside the quantifier, nothing is claimed
   ELSE IF e.op \in {"import_doc", "discarding"} THEN Registry(pre, e, Load(e.post))
   ELSE IF ~Precond(pre, e) THEN {"HARNESS-precondition"}
   ELSE LET exp == Expect(pre, e)  post == Load(e.post) IN
